@@ -49,18 +49,6 @@ theorem db_high_gain : ∀ p ∈ dbTables, highGain p.2 ≤ dec 1 8 := by decide
 theorem db_low_gain : ∀ p ∈ dbTables, lowGain p.2 = 1 := by decide +kernel
 theorem db_lengths : ∀ p ∈ dbTables, p.2.length = p.1 := by decide +kernel
 
-/-- closed-form least-squares end-point coefficients -/
-def sgExact (n : Nat) : List Rat :=
-  (List.range n).map (fun (j : Nat) => mkRat ((4 * n : Int) - 2 - 6 * (j : Int)) (n * (n + 1)))
-
-def maxDev (a b : List Rat) : Rat := (List.zipWith (fun x y => absR (x - y)) a b).foldl max 0
-
-#eval sgTables.map (fun (n, t) => (n, maxDev t (sgExact n)))
-
-theorem sg_close : ∀ p ∈ sgTables, p.2.length = p.1 ∧ maxDev p.2 (sgExact p.1) ≤ dec 5 6 := by
-  decide +kernel
-
 end SignaloModel.Tables
 
 #print axioms SignaloModel.Tables.db_residuals
-#print axioms SignaloModel.Tables.sg_close
